@@ -39,7 +39,7 @@ def queries(tier):
                     ir2c_opts=["--memcpy-hook", "_ZN10OP2Utility7Archive6HuffLZ17CopyAvailableDataEPcm=stub_memcpy_ring"],
                     desc="HuffLZ::CopyAvailableData from ARBITRARY ring indices and ANY 64-bit request size, its memcpy calls recorded instead of executed: min(requested, pending) bytes, taken from the ring in order from the read index "
                          "(one copy up to the window end, one after the wrap), written contiguously into the caller's buffer and never past the request; read index advances modulo 4096 (native replay compares real bytes)"))
-    qs.append(Query("getdata_ring", "C04_lzh.cpp", "h_getdata_ring", {"RING": 1}, unwind=30, timeout=600, redirects={TREECTOR: "stub_TreeCtor", DCODE: "stub_DecompressCode_ring"}, native_redirects={DCODE: "stub_DecompressCode_ring"},
+    qs.append(Query("getdata_ring", "C04_lzh.cpp", "h_getdata_ring", {"RING": 1}, unwind=30, timeout=1800, redirects={TREECTOR: "stub_TreeCtor", DCODE: "stub_DecompressCode_ring"}, native_redirects={DCODE: "stub_DecompressCode_ring"},
                     ir2c_opts=["--memcpy-hook", "_ZN10OP2Utility7Archive6HuffLZ17CopyAvailableDataEPcm=stub_memcpy_ring", "--memcpy-hook", "_ZN10OP2Utility7Archive6HuffLZ7GetDataEPcm=stub_memcpy_ring"],
                     desc="HuffLZ::GetData from ARBITRARY ring indices, ANY request size, end-of-stream flag symbolic, at most one further code decoded (index contract): returns min(requested, available), short only at end of stream, "
                          "copies contiguous and in ring order, read index advances modulo 4096"))
